@@ -38,7 +38,8 @@ still to run (`hdr.NEntries - e`).
 			err := md.unsafeReadFrom(exportedTx[i : i+mdLen]); if err != nil { return nil, err }
 			i += mdLen
 		}
-		vLen := int(binary.BigEndian.Uint32(exportedTx[i:])); i += lszSize     // <- no check that 4 bytes remain
+		if len(exportedTx) < i+lszSize { return nil, ErrIllegalArguments }      // FIX vLen
+		vLen := int(binary.BigEndian.Uint32(exportedTx[i:])); i += lszSize
 		if len(exportedTx) < i+vLen { return nil, ErrIllegalArguments }
 		entries = append(entries, &EntrySpec{Key: key, Metadata: md, Value: exportedTx[i : i+vLen]})
 		i += vLen
@@ -66,7 +67,7 @@ def replicateEntries (fx : Fix) (exportedTx : Bytes) : Nat → Nat → List Entr
               let md ← KVMetadata.unsafeReadFrom s
               pure (some md, i + mdLen)
             else pure (none, i) : M (Option KVMetadata × Nat))
-          -- FIX (absent in the code): if len(exportedTx) < i+lszSize { return nil, ErrIllegalArguments }
+          -- FIX vLen: if len(exportedTx) < i+lszSize { return nil, ErrIllegalArguments }
           if fx.vLen && exportedTx.length < i + storeLszSize then M.fail .illegalArguments
           else do
             let vLen ← be32At exportedTx i
@@ -81,17 +82,20 @@ def replicateEntries (fx : Fix) (exportedTx : Bytes) : Nat → Nat → List Entr
 /--
 ```go
 	if i < len(exportedTx) {
-		tLen := int(binary.BigEndian.Uint16(exportedTx[i:])); i += sszSize        // <- 1 trailing byte
+		if len(exportedTx) < i+sszSize { return nil, ErrIllegalArguments }          // FIX tLen
+		tLen := int(binary.BigEndian.Uint16(exportedTx[i:])); i += sszSize
 		if len(exportedTx) < i+tLen { return nil, ErrIllegalArguments }
 		v := exportedTx[i : i+tLen]
-		if len(v) > 0 && v[0] > 1 { return nil, ErrIllegalTruncationArgument }
-		isTruncated = v[0] == 1                                                   // <- tLen = 0
+		if len(v) == 0 || v[0] > 1 { return nil, ErrIllegalTruncationArgument }    // FIX tZero
+		isTruncated = v[0] == 1
 		i += tLen
 	}
-``` -/
+```
+Before the repair (`fx.tZero = false`) the test was `if len(v) > 0 && v[0] > 1`, which lets `tLen = 0`
+through to `v[0]`. -/
 def replicateTruncInfo (fx : Fix) (exportedTx : Bytes) (i : Nat) : M (Bool × Nat) :=
   if i < exportedTx.length then
-    -- FIX (absent in the code): if len(exportedTx) < i+sszSize { return nil, ErrIllegalArguments }
+    -- FIX tLen: if len(exportedTx) < i+sszSize { return nil, ErrIllegalArguments }
     if fx.tLen && exportedTx.length < i + storeSszSize then M.fail .illegalArguments
     else do
       let tLen ← be16At exportedTx i
@@ -99,10 +103,14 @@ def replicateTruncInfo (fx : Fix) (exportedTx : Bytes) (i : Nat) : M (Bool × Na
       if exportedTx.length < i + tLen then M.fail .illegalArguments
       else do
         let v ← slice exportedTx i (i + tLen)
-        let bad ← (if v.length > 0 then do let x ← idx v 0; pure (decide (x.toNat > 1)) else pure false : M Bool)
+        let bad ← (
+          -- FIX tZero: `len(v) == 0 || v[0] > 1`
+          if fx.tZero then
+            (if v.length = 0 then pure true else do let x ← idx v 0; pure (decide (x.toNat > 1)) : M Bool)
+          -- before the repair: `len(v) > 0 && v[0] > 1`
+          else
+            (if v.length > 0 then do let x ← idx v 0; pure (decide (x.toNat > 1)) else pure false : M Bool))
         if bad then M.fail .illegalTruncationArgument
-        -- FIX (absent in the code): if len(v) == 0 { return nil, ErrIllegalTruncationArgument }
-        else if fx.tZero && v.length = 0 then M.fail .illegalTruncationArgument
         else do
           let x ← idx v 0
           pure (decide (x.toNat = 1), i + tLen)
@@ -147,7 +155,7 @@ def replicateTxFraming (fx : Fix) (exportedTx : Bytes) : M ExportedTx :=
 which runs after the framing succeeded. -/
 def replicateTx {σ : Type} (precommit : σ → ExportedTx → σ × R TxHeader) (st : σ) (exportedTx : Bytes) :
     σ × R TxHeader :=
-  match (replicateTxFraming Fix.none exportedTx).res with
+  match (replicateTxFraming Fix.current exportedTx).res with
   | .ok tx => precommit st tx
   | .err e => (st, .err e)
   | .panic => (st, .panic)
